@@ -13,7 +13,8 @@ PROPS["C20"] = dict(
     rule="case = one history (30-120 traffic events interleaved with management operations, shut down at the end or at a random point); non-trivial iff >=2 "
          "different kinds of management operations overlapped in time (recorded call/return); distinct by (overlapping-kind set, interleaving signature = hash of the order in which yield points were passed)",
     assumptions=["race detector sees only executed code", "net.Pipe transports"],
-    must_count=["mgmt_ops", "api_calls_completed", "clean_shutdowns", "connections_seen_closed", "yield_points_reached", "histories_with_overlapping_ops", "histories_stopped_midway"],
+    must_count=["mgmt_ops", "api_calls_completed", "clean_shutdowns", "connections_seen_closed", "yield_points_reached", "histories_with_overlapping_ops", "histories_stopped_midway",
+                "peers_with_graceful_restart", "peers_in_restarting_state_before_timers_ran"],
     min_nontrivial=10,
     race_property="C20",
     units=[dict(name="race", harness="t_server", files=["sim_", "c01_", "c20_"], run="TestVerifC20", race=True, gomaxprocs=[16, 4, 2, 1],
